@@ -113,6 +113,10 @@ class State(object):
       r = z3.Int('h0r')
       if is_ref and sort == z3.IntSort():
         self.axiom(z3.ForAll([r], z3.And(z3.Select(a, r) >= 0, z3.Select(a, r) < ALLOC_BASE)))
+        if is_ref and not owned and key != ('dict', 'keys'):
+          # a container that some slot owns is referenced by that slot only: other reference fields never point to it
+          ctag = z3.Function('container_tag', z3.IntSort(), z3.IntSort())
+          self.axiom(z3.ForAll([r], ctag(z3.Select(a, r)) == 0))
         if owned:
           # separation: an owned container belongs to exactly one (object, field) slot
           ctag = z3.Function('container_tag', z3.IntSort(), z3.IntSort())
@@ -125,6 +129,8 @@ class State(object):
           # the hidden key list of a dict is owned by that dict alone (inverse function owner)
           owner = z3.Function('keylist_owner', z3.IntSort(), z3.IntSort())
           self.axiom(z3.ForAll([r], owner(z3.Select(a, r)) == r))
+          ctag = z3.Function('container_tag', z3.IntSort(), z3.IntSort())
+          self.axiom(z3.ForAll([r], ctag(z3.Select(a, r)) == -1))
       elif key in (('list', 'items'),):
         i = z3.Int('h0i')
         e = z3.Select(z3.Select(a, r), i)
